@@ -190,6 +190,13 @@ func rPredValue(p rPred, item interface{}, env *rEnv) interface{} {
 		b, ok := rName("b", item).(float64)
 		id, _ := rName("id", item).(float64)
 		return (ok && b > env.t) || id == 0
+	case 9:
+		// an array that does not consist only of numbers is cast to a boolean: true iff some member is
+		id := rName("id", item)
+		if rIsUndef(id) {
+			return []interface{}{""}
+		}
+		return []interface{}{"", id}
 	}
 	return rUndef
 }
@@ -401,6 +408,8 @@ func rPredText(p rPred) string {
 		return `[{"k": 1}]`
 	case 8:
 		return "[b > $t or id = 0]"
+	case 9:
+		return `[["", id]]`
 	}
 	return ""
 }
@@ -613,7 +622,10 @@ func c02BodyX(maxLen, maxP, pk int, arrayItems bool) {
 		}
 	}
 	var steps []rStep
-	switch verifChoose(6) {
+	head := verifChoose(7)
+	switch head {
+	case 6: // the predicate's step is the first step and the input is an array: applied per member
+		steps = []rStep{{kind: sName, name: "x", preds: preds}}
 	case 0: // field step
 		steps = []rStep{{kind: sName, name: "x", preds: preds}}
 	case 1: // predicate belongs to its step inside a path (applied per context item)
@@ -638,6 +650,9 @@ func c02BodyX(maxLen, maxP, pk int, arrayItems bool) {
 	var input interface{} = doc
 	if steps[0].kind == sCtx {
 		input = x
+	}
+	if head == 6 {
+		input = doc["z"]
 	}
 	env := &rEnv{root: input, v: x, t: t}
 	got := hEvalExpr(e, input)
